@@ -295,14 +295,18 @@ JobStart(j) ==
   /\ UNCHANGED <<w, specv, fs, clock, trk, hsh, useHash, gp, conv, cnt>>
   /\ Log("JobStart", [t |-> jobs[j].tgt, j |-> j])
 
-JobEnd(j, ok) ==
-  /\ SchedOK /\ jobs[j].st = "R"
+(* tie: the job gives its outputs the modification time of its newest input (cp -p, rsync -a): *)
+(* equal times are not "strictly newer", so such outputs are up to date                        *)
+OutTime(t, tie) == LET ins == {fs[f] : f \in {g \in w.in[t] : fs[g] # Missing}} IN
+                   IF tie /\ ins # {} THEN Max(ins) ELSE clock + 1
+JobEnd(j, ok, tie) ==
+  /\ SchedOK /\ jobs[j].st = "R" /\ (tie => ok)
   /\ jobs' = [jobs EXCEPT ![j].st = IF ok THEN "OK" ELSE "FAIL"]
-  /\ IF ok THEN /\ fs' = [f \in Files |-> IF f \in w.out[jobs[j].tgt] THEN clock + 1 ELSE fs[f]]
+  /\ IF ok THEN /\ fs' = [f \in Files |-> IF f \in w.out[jobs[j].tgt] THEN OutTime(jobs[j].tgt, tie) ELSE fs[f]]
                 /\ clock' = clock + 1 /\ conv' = conv
           ELSE /\ UNCHANGED <<fs, clock>> /\ Disturb
   /\ UNCHANGED <<w, specv, trk, hsh, useHash, gp, cnt>>
-  /\ Log("JobEnd", [t |-> jobs[j].tgt, j |-> j, ok |-> ok])
+  /\ Log("JobEnd", [t |-> jobs[j].tgt, j |-> j, ok |-> ok, tie |-> tie])
 
 (* the scheduler forgets a finished job (slurm without accounting / SGE never show it; *)
 (* with accounting the record ages out) *)
@@ -354,8 +358,8 @@ EnvNext ==
   \/ On("EditSpec") /\ \E t \in T : EditSpec(t)
   \/ On("SetUseHash") /\ \E v \in BOOLEAN : SetUseHash(v)
 SchedNext ==
-  \E j \in JobIds : JobStart(j) \/ (On("Purge") /\ Purge(j)) \/ JobEnd(j, TRUE)
-                     \/ (On("JobFail") /\ JobEnd(j, FALSE))
+  \E j \in JobIds : JobStart(j) \/ (On("Purge") /\ Purge(j)) \/ JobEnd(j, TRUE, FALSE)
+                     \/ (On("Ties") /\ JobEnd(j, TRUE, TRUE)) \/ (On("JobFail") /\ JobEnd(j, FALSE, FALSE))
 
 (* padding for the generator: once the command budget is used up a behaviour may idle *)
 Halt == /\ Idle /\ cnt.cmds >= MaxCmds /\ UNCHANGED core /\ Log("Halt", << >>)
